@@ -415,4 +415,56 @@ def toCell (pay : V → List Bool × List Cell) : Nat → HTree V → Cell
 
 end HTree
 
+/-! ## SPEC: dictionaries inside Merkle proofs — some subtrees replaced by pruned-branch cells -/
+
+/-- a `Hashmap n X` tree in which any subtree may be a pruned-branch cell (arbitrary mask / data / refs) -/
+inductive PTree (V : Type) where
+  | leaf (l : Lbl) (v : V)
+  | fork (l : Lbl) (lo hi : PTree V)
+  | pruned (mask : Nat) (bits : List Bool) (refs : List Cell)
+
+namespace PTree
+variable {V : Type}
+
+def Valid : Nat → PTree V → Prop
+  | m, leaf l _ => l.bits.length = m
+  | m, fork l lo hi => l.bits.length < m ∧ Valid (m - l.bits.length - 1) lo ∧ Valid (m - l.bits.length - 1) hi
+  | _, pruned _ _ _ => True
+
+/-- the pairs of the un-pruned part, left to right -/
+def meaning : PTree V → List (Key × V)
+  | leaf l v => [(l.bits, v)]
+  | fork l lo hi =>
+    (meaning lo).map (fun kv => (l.bits ++ false :: kv.1, kv.2)) ++
+    (meaning hi).map (fun kv => (l.bits ++ true :: kv.1, kv.2))
+  | pruned _ _ _ => []
+
+def toCell (pay : V → List Bool × List Cell) : Nat → PTree V → Cell
+  | m, leaf l v => Cell.ordinary (l.enc m ++ (pay v).1) (pay v).2
+  | m, fork l lo hi =>
+    Cell.ordinary (l.enc m) [toCell pay (m - l.bits.length - 1) lo, toCell pay (m - l.bits.length - 1) hi]
+  | _, pruned mask bits refs => Cell.mk tyPruned mask bits refs
+
+/-- `Prunes p t`: `p` is `t` with some subtrees replaced by pruned-branch cells -/
+inductive Prunes : PTree V → HTree V → Prop where
+  | leaf (l : Lbl) (v : V) : Prunes (.leaf l v) (.leaf l v)
+  | fork (l : Lbl) {plo phi : PTree V} {lo hi : HTree V} : Prunes plo lo → Prunes phi hi →
+      Prunes (.fork l plo phi) (.fork l lo hi)
+  | pruned (mask : Nat) (bits : List Bool) (refs : List Cell) (t : HTree V) : Prunes (.pruned mask bits refs) t
+
+/-- the path of key `k` is not pruned: walking down along `k` never enters a pruned-branch cell (a key that leaves
+the tree at a label mismatch is covered: its absence is revealed) -/
+def covers : PTree V → Key → Bool
+  | leaf _ _, _ => true
+  | pruned _ _ _, _ => false
+  | fork l lo hi, k =>
+    if k.take l.bits.length == l.bits then
+      match k.drop l.bits.length with
+      | false :: r => covers lo r
+      | true :: r => covers hi r
+      | [] => true
+    else true
+
+end PTree
+
 end Tongo.Hashmap
